@@ -618,3 +618,20 @@ def s11(ctx):
                           "TreeGitStore.subdirectories lists a directory only if `%s`: collections that a direct URL still serves (bare "
                           "repositories, plain directories) are missing from their parent's Depth 1 listing" % " and ".join(extra)))
     return obs
+
+
+@rule("C18", "S12", floor=9, kind="S",
+      desc="a collection's guessed type looks at all its members and listings are complete: no early exit from the "
+           "listing loops and from Store.get_type unless a calendar / address book item was found (same obligations as "
+           "C04/A4's loop clause)")
+def s12(ctx):
+    from .common import total_loop_obligations
+    return total_loop_obligations(ctx)
+
+
+@rule("C18", "S13", floor=20, kind="N",
+      desc="hrefs found by discovery can be dereferenced as sent: what reaches create_href is an unquoted path (same "
+           "obligations as C16/Q2) - member names quoted during the traversal are quoted again on the way out")
+def s13(ctx):
+    from .c16 import q2
+    return q2(ctx)
